@@ -483,6 +483,10 @@ impl Model {
                 // `x not OP y` is not(x OP y): whatever OP is at this moment (built-in, overridden,
                 // assignment, user SETTER) is evaluated exactly as in `x OP y`
                 let v = self.eval(&R::Infix(op.clone(), l.clone(), rr.clone()))?;
+                // the `not` of this form is the prefix operator `not`: a handler registered for it applies
+                if let Some((id, ret)) = self.loggers.prefix.get("not").cloned() {
+                    return self.logger(id, vec![v], &ret);
+                }
                 match v {
                     V::Bool(x) => Ok(V::Bool(!x)),
                     _ => Err(err("not-on-non-bool")),
